@@ -276,7 +276,8 @@ where
             .unwrap_or_else(|| Box::new(StdRng::from_os_rng()));
 
         // The goal tree must be rooted at a valid goal state: resample the root until the
-        // validity checker accepts it or the time runs out.
+        // validity checker and the goal predicate accept it (a joined path ends at this root, and
+        // a sampler may be off at the rim of its region) or the time runs out.
         let mut root_error = None;
         if self.goal_tree.is_empty() {
             match goal.sample_goal(&mut rng) {
@@ -289,7 +290,8 @@ where
         }
         while root_error.is_none()
             && self.goal_tree.len() == 1
-            && !vc.is_valid(&self.goal_tree[0].state)
+            && !(vc.is_valid(&self.goal_tree[0].state)
+                && goal.is_satisfied(&self.goal_tree[0].state))
         {
             if start_time.elapsed() > timeout {
                 root_error = Some(PlanningError::Timeout);
